@@ -710,6 +710,40 @@ def same(a, b):
     return a == b
 
 
+def e2e_wrapper_prog(seed, i):
+    """single-scalar wrapper structs (and wrappers of wrappers) over every primitive: the shapes the wasm C ABI passes and returns as a bare
+    scalar, where width and sign of the value are decided by the binding alone; plus two-scalar neighbours. For the real-wasm32 leg."""
+    import spec
+    rng = random.Random("c08wrap/%s/%s" % (seed, i))
+    prog = spec.Program("p%d" % i)
+    mod = spec.Module("ffi")
+    prog.modules.append(mod)
+    op = spec.Opaque("Hub")
+    op.methods.append(spec.Method("make", None, [("seed", ("prim", "u32"))], ("obox", "Hub", False)))
+    prims = ["bool", "u8", "i8", "u16", "i16", "u32", "i32", "u64", "i64", "f32", "f64", "usize", "isize", "DiplomatChar"]
+    rng.shuffle(prims)
+    items = []
+    for k, p in enumerate(prims[:7]):
+        w = spec.Struct("W%d" % k, [("f0", ("prim", p))])
+        items.append(w)
+        t = ("struct", w.name)
+        if k % 2 == 0:
+            nw = spec.Struct("N%d" % k, [("inner", t)])
+            items.append(nw)
+            t = ("struct", nw.name) if rng.random() < 0.7 else t
+        op.methods.append(spec.Method("r%d" % k, ("ref", None), [("n", ("prim", "u8"))], t))
+        op.methods.append(spec.Method("t%d" % k, ("ref", None), [("v", t)], ("prim", p)))
+        op.methods.append(spec.Method("o%d" % k, ("ref", None), [("v", t)], ("opt", t, "std")))
+        pair = spec.Struct("P%d" % k, [("a", ("prim", p)), ("b", ("prim", rng.choice(prims)))])
+        items.append(pair)
+        op.methods.append(spec.Method("p%d" % k, ("ref", None), [("v", ("struct", pair.name))], ("struct", pair.name)))
+    mod.items = items + [op]
+    for t_ in mod.items:
+        for m_ in t_.methods:
+            m_.owner = t_
+    return prog
+
+
 def arm_mismatch(a, b):
     """does the value read back disagree with the stored one about *which arm* of some option is live?"""
     if (a is None) != (b is None):
@@ -1038,6 +1072,8 @@ def main(tier, seed):
     # what Rust *receives* and what JS *reads back* for every struct that crosses, in both directions, inside whole call histories
     import api
     e2e = api.js_e2e_leg(chk, seed + 8800, 640 if thorough else 64, "c08e2e", ncalls=(40 if thorough else 30))
+    e2w = api.js_e2e_leg(chk, seed + 8900, 64 if thorough else 8, "c08e2w", ncalls=90, label="js-e2e-wrappers", prepared=lambda i: e2e_wrapper_prog(seed, i))
+    e2e = {k: (e2e[k] + e2w[k]) for k in e2e}
     chk.evaluations = stats["option_param_checks"] + stats["write_checks_spec"] + stats["flatten_checks_legacy"] + stats["read_checks"] + stats["receive_buffers_checked"] + e2e["calls"]
     chk.distinct = shapes
     chk.rule = ("seeded structs with 1-8 fields over 14 primitives, an enum with negative/extreme discriminants, opaque pointers (optional and not), slices of "
